@@ -162,7 +162,7 @@ func ruleBrokerRemoval(c *Ctx, r5 string) {
 	subExists := clause("subscription exists", T(`^%b\.subscriptions\[`+subID+`\],ok#1$`))
 	c.Reach(r5, bs, "session removed from every subscription it holds", ReachSpec{FromEdge: &subExists,
 		Stop: `^call:builtin:delete\(%b\.subscriptions\[` + subID + `\],ok#0\.subscribers, %subscriber\)$`, Target: `^val:next:range|^return:|^call:`, Want: false})
-	emptied := clause("last subscriber left and no history kept", F(`^call:router\.\(\*broker\)\.syncKeepsHistory\(%b, %b\.subscriptions\[`+subID+`\],ok#0\)$`))
+	emptied := clause("last subscriber left and no history kept", F(`^call:router\.\(\*broker\)\.syncKeepsHistory\(%b, %b\.subscriptions\[`+subID+`\],ok#0\)$`), F(`^%b\.eventHistoryStore\[%b\.subscriptions\[`+subID+`\],ok#0\],ok#1$`))
 	c.Reach(r5, bs, "emptied subscription deleted", ReachSpec{FromEdge: &emptied, Stop: `^call:router\.\(\*broker\)\.syncDelSubscription\(%b, %b\.subscriptions\[` + subID + `\],ok#0\)$`, Target: `^val:next:range|^return:`, Want: false})
 	c.Guard(r5, bs, "subscription deleted only when empty", `^call:router\.\(\*broker\)\.syncDelSubscription\(`, 1,
 		clause("no subscribers left", T(`^\(call:builtin:len\(%b\.subscriptions\[`+subID+`\],ok#0\.subscribers\) == 0\)$`)))
